@@ -113,7 +113,7 @@ func (c *syncMap) ExpireAll(ctx context.Context) {
 	c.data.Range(func(key, value interface{}) bool {
 		cacheEntry := value.(*TraitEntry) //nolint // Panic on type assertion failure is fine here.
 
-		cacheEntry.E = startTS
+		atomic.StoreInt64(&cacheEntry.E, startTS) // Entry may be in use by concurrent readers.
 		cnt++
 
 		return true
@@ -142,7 +142,7 @@ func (c *syncMap) deleteExpired(before time.Time) {
 
 	c.data.Range(func(key, value interface{}) bool {
 		cacheEntry := value.(*TraitEntry) //nolint // Panic on type assertion failure is fine here.
-		if cacheEntry.E != 0 && cacheEntry.E < beforeTS {
+		if e := atomic.LoadInt64(&cacheEntry.E); e != 0 && e < beforeTS {
 			c.data.Delete(key)
 		}
 
@@ -170,7 +170,10 @@ func (c *syncMap) Walk(walkFn func(e Entry) error) (int, error) {
 	var lastErr error
 
 	c.data.Range(func(key, value interface{}) bool {
-		err := walkFn(value.(*TraitEntry))
+		v := value.(*TraitEntry) //nolint // Panic on type assertion failure is fine here.
+
+		// Handing out a consistent copy, entry may be updated by concurrent ExpireAll or reads.
+		err := walkFn(TraitEntry{K: v.K, V: v.V, E: atomic.LoadInt64(&v.E), C: atomic.LoadInt64(&v.C)})
 		if err != nil {
 			lastErr = err
 
